@@ -140,7 +140,7 @@ func probeFinding(prop string, v *runView, ts *tailState, res string) []finding 
 func C06(c *vf.Ctx) {
 	c.Assume = append(c.Assume, sysAssumeObs, sysAssumeUnits,
 		"an RPC has ended when the client call returned / the stream handle was closed and the handler returned; the probe is judged at quiescence with no transport action pending")
-	nT, nR := sizes(c, 8, 140, 24, 900)
+	nT, nR := sizes(c, 8, 140, 48, 3000)
 	var res string
 	fam := sysFamily{prop: "C06", maxRPC: 2, plen: 14,
 		cfgs: []sys.Config{
@@ -183,7 +183,7 @@ func C06(c *vf.Ctx) {
 		design: &designCheck{cfg: sys.Config{Small: false, Soft: true, Threads: []string{"c1"}}, kinds: []string{"start", "hstep", "relw", "deliver", "cancel"},
 			maxRPC: 2, maxStims: 5, invs: "TypeOK StreamInvs OneWrite NextAccepted"},
 		designT: &designCheck{cfg: sys.Config{Small: false, Soft: true, Threads: []string{"c1"}}, kinds: []string{"start", "hstep", "relw", "deliver", "cancel"},
-			maxRPC: 2, maxStims: 5, invs: "TypeOK StreamInvs OneWrite NextAccepted"},
+			maxRPC: 2, maxStims: 6, invs: "TypeOK StreamInvs OneWrite NextAccepted"}, // measured: 6.4e5 distinct, 1 min
 	}
 	runSysFamily(c, fam, nT, nR)
 	c.Cov["rule"] = "prefixes: realisable stimulus sequences generated by TLC simulation of System.tla (Gen) and seeded random ones over {Invoke, NewStream, stream methods, handler actions, write releases, deliveries, soft/hard cancel, armed conn.created point}; tail decided on the real state: close every handle, let the handler return, let the transport flow, then a probe unary RPC. A run is distinct by its recorded lines; every run is validated against SystemTrace.tla."
@@ -196,7 +196,7 @@ func C04(c *vf.Ctx) {
 	c.Assume = append(c.Assume, sysAssumeObs, sysAssumeUnits,
 		"after the cancel stimulus neither the peer nor the transport cooperates (no write is released, nothing is delivered) until the blocked calls have been judged",
 		"a call parked inside the user's own Unmarshal is user code and is not counted as blocked in drpc")
-	nT, nR := sizes(c, 8, 140, 24, 900)
+	nT, nR := sizes(c, 8, 140, 48, 3000)
 	var res string
 	fam := sysFamily{prop: "C04", maxRPC: 2, plen: 10,
 		cfgs: []sys.Config{
@@ -418,7 +418,7 @@ func cancelReached(v *runView, sid int) bool {
 func C05(c *vf.Ctx) {
 	c.Assume = append(c.Assume, sysAssumeObs, sysAssumeUnits,
 		"fault model: from the fault on, the failing endpoint's transport fails every pending and later Read and Write (a dead socket); the peer learns of it as end-of-stream after what was already written")
-	nT, nR := sizes(c, 8, 140, 24, 900)
+	nT, nR := sizes(c, 8, 140, 48, 3000)
 	fam := sysFamily{prop: "C05", maxRPC: 2, plen: 12,
 		cfgs: []sys.Config{
 			{Small: true, Threads: thr2},
@@ -542,7 +542,7 @@ func C05(c *vf.Ctx) {
 		design: &designCheck{cfg: sys.Config{Small: true, Threads: []string{"c1"}}, kinds: []string{"start", "hstep", "relw", "deliver", "fault"},
 			maxRPC: 1, maxStims: 5, invs: "TypeOK StreamInvs OneWrite CloseOnce FaultContained"},
 		designT: &designCheck{cfg: sys.Config{Small: true, Threads: []string{"c1"}}, kinds: []string{"start", "hstep", "relw", "deliver", "fault"},
-			maxRPC: 1, maxStims: 7, invs: "TypeOK StreamInvs OneWrite CloseOnce FaultContained"},
+			maxRPC: 1, maxStims: 8, invs: "TypeOK StreamInvs OneWrite CloseOnce FaultContained"}, // measured: 1.8e6 distinct, 1 min
 	}
 	// delivery findings after a fault are C05's ("whatever was delivered before the failure is still a correct prefix")
 	fam.own["C01"], fam.own["C02"] = true, true
@@ -557,7 +557,7 @@ func C12(c *vf.Ctx) {
 	c.Assume = append(c.Assume, sysAssumeObs, sysAssumeUnits,
 		"the transport lets go of pending I/O when it is closed (parked Reads and Writes return an error)",
 		"a handler that is running when the server context is cancelled returns when asked to (user code)")
-	nT, nR := sizes(c, 8, 140, 24, 900)
+	nT, nR := sizes(c, 8, 140, 48, 3000)
 	fam := sysFamily{prop: "C12", maxRPC: 2, plen: 12,
 		cfgs: []sys.Config{
 			{Small: true, Threads: thr3},
@@ -708,7 +708,7 @@ func C12(c *vf.Ctx) {
 
 func C07(c *vf.Ctx) {
 	c.Assume = append(c.Assume, sysAssumeObs, sysAssumeUnits)
-	nT, nR := sizes(c, 8, 140, 24, 900)
+	nT, nR := sizes(c, 8, 140, 48, 3000)
 	fam := sysFamily{prop: "C07", maxRPC: 3, plen: 14,
 		cfgs: []sys.Config{
 			{Small: true, Soft: true, Threads: thr3},
@@ -796,7 +796,7 @@ func C01(c *vf.Ctx) {
 	c.Assume = append(c.Assume, sysAssumeObs, sysAssumeUnits,
 		"payloads carry (stream or rpc tag, sequence number) in every frame; the harness's own parser reads them off the wire, so corruption, merging or truncation of a payload changes a tag or a frame count",
 		"submission order is the order in which the messages' first frames reach the transport")
-	nT, nR := sizes(c, 8, 140, 24, 900)
+	nT, nR := sizes(c, 8, 140, 48, 3000)
 	fam := sysFamily{prop: "C01", maxRPC: 2, plen: 22,
 		cfgs: []sys.Config{
 			{Small: true, Threads: thr3},
@@ -952,7 +952,7 @@ func lentBufferScenario(w *sys.World, rng *rand.Rand) {
 func C02(c *vf.Ctx) {
 	c.Assume = append(c.Assume, sysAssumeObs, sysAssumeUnits,
 		"every payload, error text and rpc name carries the identity of the RPC/stream that produced it")
-	nT, nR := sizes(c, 8, 140, 24, 900)
+	nT, nR := sizes(c, 8, 140, 48, 3000)
 	var res02 string
 	fam := sysFamily{prop: "C02", maxRPC: 4, plen: 20,
 		cfgs: []sys.Config{
